@@ -47,17 +47,7 @@
 #include <iv_popen.h>
 #include "vk.h"
 #include "mt.h"
-/* ivmt.h also holds ivmt.c's definitions of the vk callbacks; give this translation unit private copies
-   under other names (unused) and use the real ones declared in vk.h */
-#define vk_trace ivmt_sig_unused_trace
-#define vk_end ivmt_sig_unused_end
-#define vk_before_wait ivmt_sig_unused_before_wait
-#define vk_rotation ivmt_sig_unused_rotation
 #include "ivmt.h"
-#undef vk_trace
-#undef vk_end
-#undef vk_before_wait
-#undef vk_rotation
 
 #define NCH	16
 
@@ -269,6 +259,7 @@ static void act_wait_register(struct tctx *c, const char *a, int j, const char *
 	w->handler = wait_callback;
 	s->wi[j] = w;
 	s->wi_child[j] = ch;
+	cint[ch] = 1;		/* before the call: other threads run at its yield points */
 	if (!spawn) {
 		w->pid = cpid[ch];
 		vk_trace("a %s pid=%d", a, cpid[ch]);
@@ -284,11 +275,11 @@ static void act_wait_register(struct tctx *c, const char *a, int j, const char *
 		if (rc < 0) {
 			release(w, sizeof(*w));
 			s->wi[j] = NULL;
+			cint[ch] = 0;
 			return;
 		}
 	}
 	s->wi_reg[j] = 1;
-	cint[ch] = 1;
 }
 
 static void act_wait_unregister(struct tctx *c, int j)
